@@ -370,9 +370,15 @@ async def sum(iterable: AnyIterable[Any], start: Any = 0) -> Any:
     """
     Sum of ``start`` and all elements in the (async) iterable
     """
+    if isinstance(start, (str, bytes, bytearray)):
+        raise TypeError(
+            f"sum() can't sum {type(start).__name__} [use .join(seq) instead]"
+        )
     total = start
-    async for item in aiter(iterable):
-        total += item
+    async with ScopedIter(iterable) as item_iter:
+        async for item in item_iter:
+            # not ``+=``: the start value must not be modified in place
+            total = total + item
     return total
 
 
